@@ -20,15 +20,18 @@ VARIABLES l,      \* next line of the trace
           prevW,  \* previous world of the same behaviour
           obsL,   \* plain `list` observation of w (if made), else NoObs
           prevL,  \* plain `list` observation of prevW
+          fbase,  \* first Format event of the current world for each exposure setting (cross-format comparison)
           mism    \* number of rejected events so far
-vars == <<l, w, wid, edit, prevW, obsL, prevL, mism>>
+vars == <<l, w, wid, edit, prevW, obsL, prevL, fbase, mism>>
 
 NoWorld == [nil |-> TRUE]
 NoObs == [nil |-> TRUE, outcome |-> "none"]
 NoEdit == [chain |-> FALSE, label |-> "", args |-> <<>>]
+NoBase == [f |-> [nil |-> TRUE], t |-> [nil |-> TRUE]]
 
 Init == /\ l = 1 /\ w = NoWorld /\ wid = -1 /\ mism = 0
         /\ edit = NoEdit /\ prevW = NoWorld /\ obsL = NoObs /\ prevL = NoObs
+        /\ fbase = NoBase
 
 IsEvent(e) == l <= Len(Trace) /\ Trace[l].ev = e /\ l' = l + 1
 
@@ -39,7 +42,7 @@ Report(ms) == /\ \A m \in ms : PrintT("MISMATCH " \o ToJson([line |-> l, wid |->
 TraceWorld == /\ IsEvent("World")
               /\ w' = Trace[l].world /\ wid' = Trace[l].id
               /\ edit' = [chain |-> Trace[l].chain, label |-> Trace[l].label, args |-> Trace[l].args]
-              /\ prevW' = w /\ prevL' = obsL /\ obsL' = NoObs
+              /\ prevW' = w /\ prevL' = obsL /\ obsL' = NoObs /\ fbase' = NoBase
               /\ UNCHANGED mism
 
 (* observed point set for a pair of abstract peers *)
@@ -56,7 +59,7 @@ EdgeLawMismatches(obs) ==
   ELSE {}
 
 TraceList == /\ IsEvent("List")
-             /\ UNCHANGED <<w, wid, edit, prevW, prevL>>
+             /\ UNCHANGED <<w, wid, edit, prevW, prevL, fbase>>
              /\ LET ev == Trace[l]
                     plain == ~ev.opts.exposure /\ ev.opts.focus = "" /\ ~ev.opts.stop
                 IN /\ obsL' = IF plain THEN ev.obs ELSE obsL
@@ -65,23 +68,42 @@ TraceList == /\ IsEvent("List")
                              ELSE {})
 
 TraceEval == /\ IsEvent("Eval")
-             /\ UNCHANGED <<w, wid, edit, prevW, prevL, obsL>>
+             /\ UNCHANGED <<w, wid, edit, prevW, prevL, obsL, fbase>>
              /\ LET lc(p, q) == ObsConn(w, obsL, p, q)
                 IN Report(EvalMismatches(w, Trace[l].obs, obsL.outcome = "ok", lc))
 
 (* C04: diff(prev, cur), diff(cur, prev) and diff(cur, cur); only between worlds whose keys are unambiguous *)
 TraceDiff == /\ IsEvent("Diff")
-             /\ UNCHANGED <<w, wid, edit, prevW, prevL, obsL>>
+             /\ UNCHANGED <<w, wid, edit, prevW, prevL, obsL, fbase>>
              /\ LET ev == Trace[l]
                     a == IF ev.dir = "fwd" THEN prevW ELSE w
                     b == IF ev.dir = "rev" THEN prevW ELSE w
                 IN Report(IF DistinctKeys(a) /\ DistinctKeys(b) THEN DiffMismatches(a, b, ev.obs) ELSE {})
 
 TraceFocus == /\ IsEvent("Focus")
-              /\ UNCHANGED <<w, wid, edit, prevW, prevL, obsL>>
+              /\ UNCHANGED <<w, wid, edit, prevW, prevL, obsL, fbase>>
               /\ Report(IF obsL.outcome = "ok" THEN FocusMismatches(w, obsL, Trace[l].W, Trace[l].obs) ELSE {})
 
-Next == TraceWorld \/ TraceList \/ TraceEval \/ TraceDiff \/ TraceFocus
+TraceFormat ==
+  /\ IsEvent("Format")
+  /\ UNCHANGED <<w, wid, edit, prevW, prevL, obsL>>
+  /\ LET ev == Trace[l]
+         base == IF ev.exposure THEN fbase.t ELSE fbase.f
+         asBase == [nil |-> FALSE, fmt |-> ev.fmt, exposure |-> ev.exposure, out |-> ev.out]
+     IN /\ fbase' = IF base.nil /\ ev.outcome = "ok"
+                    THEN (IF ev.exposure THEN [fbase EXCEPT !.t = asBase] ELSE [fbase EXCEPT !.f = asBase])
+                    ELSE fbase
+        /\ Report(FormatMismatches(ev, base))
+
+TraceDiffFormat == /\ IsEvent("DiffFormat")
+                   /\ UNCHANGED <<w, wid, edit, prevW, prevL, obsL, fbase>>
+                   /\ Report(DiffFormatMismatches(Trace[l]))
+
+TraceDeterminism == /\ IsEvent("Determinism")
+                    /\ UNCHANGED <<w, wid, edit, prevW, prevL, obsL, fbase>>
+                    /\ Report(DeterminismMismatches(Trace[l]))
+
+Next == TraceWorld \/ TraceList \/ TraceEval \/ TraceDiff \/ TraceFocus \/ TraceFormat \/ TraceDiffFormat \/ TraceDeterminism
 
 Spec == Init /\ [][Next]_vars
 
